@@ -52,10 +52,10 @@ func genC20(r *simrt.RNG, tier string, variant int) Plan {
 			}
 			big = true
 		}
-		pat := r.Intn(6)
+		pat := r.Intn(7)
 		if variant >= 0 {
-			pat = variant % 6
-			sz = readerLens[(variant/6)%len(readerLens)]
+			pat = variant % 7
+			sz = readerLens[(variant/7)%len(readerLens)]
 		}
 		if pat == 1 && sz > 5000 {
 			pat = 2 // byte-at-a-time over megabytes is only slow
@@ -63,6 +63,11 @@ func genC20(r *simrt.RNG, tier string, variant int) Plan {
 		op := Op{Kind: "reader", Client: 0, Tok: i + 1, Size: sz, N: pat, Hold: r.Bool(0.3), Src: Pick(r, []int{0, 0, 0, 1, 2, 3})}
 		if r.Bool(0.2) {
 			op.SleepNs = Pick(r, []int64{int64(2e9), int64(15e9)}) // a slow consumer
+		}
+		if p.Clients[0].Kind == "ws" && r.Bool(0.15) {
+			// the reader is a parameter of a channel-returning method and is consumed
+			// by a goroutine that outlives the method call
+			op.Kind, op.N = "readersub", 0
 		}
 		p.Ops = append(p.Ops, op)
 	}
@@ -181,7 +186,7 @@ func runC20(e *Env, p *Plan) {
 			continue
 		}
 		want := Payload(op.Tok, op.Size)
-		if op.N == 4 {
+		if op.N == 4 || op.N == 6 {
 			k := op.Size/2 + 1
 			if k > op.Size {
 				k = op.Size
